@@ -40,6 +40,8 @@ type Source struct {
 	ZeroReads bool // may return (0, nil)
 	DataWithErr bool // the data before an error may be returned together with it
 	DataErrs  int
+	quiet       int
+	QuietBursts int
 	Handed   []byte // every byte actually handed to the reader
 	active   *Interruption
 	silentTo time.Time
@@ -86,8 +88,19 @@ func (r *Source) Read(p []byte) (int, error) {
 		r.EndEOFs++
 		return 0, io.EOF
 	}
+	if r.quiet > 0 {
+		// inside a burst of consecutive empty reads (a quiet line)
+		r.quiet--
+		r.ZeroN++
+		return 0, nil
+	}
 	if r.ZeroReads && r.T.D(8) == 7 {
 		r.ZeroN++
+		if r.T.D(6) == 0 {
+			// a long burst: readers with a "no progress" limit give up at 100
+			r.quiet = []int{4, 98, 99, 100, 101, 260}[r.T.D(6)]
+			r.QuietBursts++
+		}
 		return 0, nil
 	}
 	max := r.MaxChunk
@@ -95,15 +108,22 @@ func (r *Source) Read(p []byte) (int, error) {
 		max = 64
 	}
 	n := 1 + r.T.DF(max, func(g *rt.Rand) int {
-		switch g.Weighted(4, 3, 2, 1) {
+		switch g.Weighted(4, 3, 2, 1, 2) {
 		case 0:
 			return 0
 		case 1:
 			return g.Intn(4)
 		case 2:
 			return g.Intn(max)
+		case 3:
+			return max - 1
 		}
-		return max - 1
+		// buffer-sized chunks: powers of two and their neighbours
+		v := (1 << uint(3+g.Intn(11))) - 2 + g.Intn(3)
+		if v >= max {
+			v = max - 1
+		}
+		return v
 	})
 	if n > len(p) {
 		n = len(p)
